@@ -16,6 +16,10 @@ def run(path):
     events = []
     if kind == "qc":
         import qcexec
+        for st in rp.get("prelude", []):
+            qcexec.execute(st["call"], json.loads(st["conc"]))      # earlier calls sharing caller-owned parameter objects
+        if rp.get("prelude"):
+            print("prelude: %d earlier calls on the same caller-owned parameter objects re-executed" % len(rp["prelude"]))
         for k, st in enumerate(rp["steps"]):
             conc = json.loads(st["conc"])
             obs = qcexec.execute(st["call"], conc)
